@@ -867,8 +867,21 @@ def gcanon(out):
     out = re.sub(r' nc=\d+ nw=\d+ ni=\d+$', '', out)
     out = re.sub(r'\+0(?=\||$| )', '+0', out)
     out = re.sub(r'\+[1-9]\d*', '+N', out)
-    out = re.sub(r';inst=.*$', '', out)
+    out = re.sub(r';inst=[^ ]*', '', out)
+    out = re.sub(r';sat0=\w+;dnc=\d+', '', out)
     return out
+
+
+def decompress_eager(out):
+    """the decode gadget must emit (and satisfy) its constraints when it is called, not when the result is first used"""
+    m = re.search(r'sat=(\w+) out=[^; ]*;sat0=(\w+);dnc=(\d+)', out)
+    if not m:
+        return None
+    if m.group(3) != '0':
+        return 'decompress_from_field emitted no constraints until its result was used'
+    if m.group(1) != m.group(2):
+        return 'decompress_from_field: satisfied right after the call but not once the result is used'
+    return None
 
 
 def gfields(out):
@@ -951,6 +964,10 @@ def gen_C13(rng, tier):
             continue
         ne = native_decode_enc(v)
         def orc(out, bld, ne=ne, v=v):
+            lazy = decompress_eager(out)
+            if lazy:
+                return lazy
+            out = gcanon(out)
             f = gfields(out)
             if ne is None:
                 return None if f.get('sat') == '0' else 'invalid encoding decoded in-circuit by the honest prover'
@@ -1051,6 +1068,10 @@ def gen_C14(rng, tier):
         ne = native_decode_enc(s)
         for fl, y in hints_for(den):
             def orc(out, bld, ne=ne):
+                lazy = decompress_eager(out)
+                if lazy:
+                    return lazy
+                out = gcanon(out)
                 f = gfields(out)
                 if f.get('sat') != '1':
                     return None
@@ -1192,6 +1213,48 @@ def gen_C16(rng, tier):
         a, b = rng.choice(sc), rng.choice(sc)
         cases.append(Case('bls.mul %s %s' % (h32(a), h32(b)), builds=('ark',), cls='mul-pairing', oracle=pairs_equal(3), nomodel=True))
         cases.append(Case('bls.xchg %s %s' % (h32(a), h32(b)), builds=('ark',), cls='serialisation-exchange', oracle=expect('xchg=1'), nomodel=True))
+    # malformed / non-canonical serialisations offered to both engines: same verdict and value
+    same = lambda out, bld: None if len(out.split(' ')) == 2 and out.split(' ')[0] == out.split(' ')[1] else 'the two engines deserialise differently'
+    coords = [0, 1, 2, p - 1, p, p + 1, (1 << 377) - 1, 1 << 376, rng.randrange(p), rng.getrandbits(384)]
+    flagbytes = [0x00, 0x40, 0x80, 0xc0]
+    for x in coords:
+        xb = (x % (1 << 384)).to_bytes(48, 'little')
+        for fb in flagbytes:
+            b = bytearray(xb)
+            b[47] |= fb
+            cases.append(Case('bls.deser g1c %s' % bytes(b).hex(), builds=('ark',), cls='deser:g1-compressed', oracle=same, nomodel=True))
+            cases.append(Case('bls.deser g1cu %s' % bytes(b).hex(), builds=('ark',), cls='deser:g1-compressed-unchecked', oracle=same, nomodel=True))
+            for y in (0, 1, p, p - 1):
+                yb = bytearray((y % (1 << 384)).to_bytes(48, 'little'))
+                yb[47] |= fb
+                cases.append(Case('bls.deser g1uu %s' % (xb + bytes(yb)).hex(), builds=('ark',), cls='deser:g1-uncompressed-unchecked', oracle=same, nomodel=True))
+                cases.append(Case('bls.deser g1u %s' % (xb + bytes(yb)).hex(), builds=('ark',), cls='deser:g1-uncompressed', oracle=same, nomodel=True))
+            for x1 in (0, p, 1):
+                b2 = bytearray((x1 % (1 << 384)).to_bytes(48, 'little'))
+                b2[47] |= fb
+                cases.append(Case('bls.deser g2c %s' % (xb + bytes(b2)).hex(), builds=('ark',), cls='deser:g2-compressed', oracle=same, nomodel=True))
+                cases.append(Case('bls.deser g2cu %s' % (xb + bytes(b2)).hex(), builds=('ark',), cls='deser:g2-compressed-unchecked', oracle=same, nomodel=True))
+        cases.append(Case('bls.deser fp %s' % xb.hex(), builds=('ark',), cls='deser:fp', oracle=same, nomodel=True))
+        cases.append(Case('bls.deser gt %s' % (xb + bytes(48 * 11)).hex(), builds=('ark',), cls='deser:gt', oracle=same, nomodel=True))
+    for y in [0, q - 1, q, q + 1, (1 << 256) - 1, rng.getrandbits(256)]:
+        cases.append(Case('bls.deser fr %s' % h32(y), builds=('ark',), cls='deser:fr', oracle=same, nomodel=True))
+    return cases
+
+
+# ------------------------------------------------------------------------------------------------
+# C17: the constants as each build actually exposes them, against the model's reading of the source literals
+
+def gen_C17(rng, tier):
+    cases = []
+    names = ['ZERO', 'ONE', 'MULTIPLICATIVE_GENERATOR', 'TWO_ADIC_ROOT_OF_UNITY', 'FIELD_SIZE_POWER_OF_TWO', 'MODULUS_LIMBS',
+             'MODULUS_MINUS_ONE_DIV_TWO_LIMBS', 'TRACE_LIMBS', 'TRACE_MINUS_ONE_DIV_TWO_LIMBS', 'MODULUS_BIT_SIZE', 'TWO_ADICITY',
+             'QUADRATIC_NON_RESIDUE_TO_TRACE', 'ZETA', 'MINUS_ONE', 'QUADRATIC_NON_RESIDUE']
+    for fld in ('fq', 'fr', 'fp'):
+        for nm in names:
+            cases.append(Case('f.%s.const %s' % (fld, nm), cls='const:%s' % fld))
+    # curve constants through the API
+    cases.append(Case(prog(['E=gen', 'enc:E', 'i=id', 'enc:i', 'isid:i', 'd=dec:%s' % h32(8), 'eq:d,E']), cls='const:curve',
+                      oracle=expect('%s %s 1 1' % (h32(8), ZERO32))))
     return cases
 
 
@@ -1199,12 +1262,12 @@ def gen_C16(rng, tier):
 
 # properties whose Props/Cxx.lean carries kernel-checked property theorems are claimed at level `proof`;
 # the others run the correspondence + oracle only until their theorems land
-LEVELS = {'C16': 'proof', 'C15': 'other', 'C04': 'proof', 'C05': 'proof', 'C08': 'proof'}
+LEVELS = {'C16': 'proof', 'C15': 'other', 'C04': 'proof', 'C05': 'proof', 'C08': 'proof', 'C01': 'proof', 'C02': 'proof', 'C03': 'proof'}
 
 TB_FIELD = ['arkworks Montgomery arithmetic and fiat-crypto primitives: modelled by contract (exact arithmetic mod p)']
 
 PROPS = {
-    'C17': dict(level='proof', modules=['Decaf.Props.C17', 'Decaf.Spec.Primes'], namespaces=['C17', 'Model.prime_q', 'Model.prime_r', 'Model.prime_p'], gen=None,
+    'C17': dict(level='proof', modules=['Decaf.Props.C17', 'Decaf.Spec.Primes'], namespaces=['C17', 'Model.prime_q', 'Model.prime_r', 'Model.prime_p'], gen=gen_C17,
                 const_facts='c17',
                 trusted_base=['statement of each defining equation in lean/Decaf/Model/ConstFacts.lean'],
                 assumptions=['constants are read from the Rust source text by the translator; a constant that is renamed or removed makes its theorem fail']),
